@@ -358,8 +358,12 @@ class Engine(CallMixin):
             _, isn, ref, key, line = ev
             if isinstance(rr, Ref) and rr == ref:
                 continue
-            if any((o.val if isinstance(o, Opt) else o) == ref for o in st.out
-                   if isinstance(o.val if isinstance(o, Opt) else o, Ref)):
+            times = sum(1 for o in st.out if isinstance(o.val if isinstance(o, Opt) else o, Ref)
+                        and (o.val if isinstance(o, Opt) else o) == ref)
+            if times > 1:
+                # handed on, but more than once: the consumer would see the same frame (the same rows) twice
+                self.oblige(st, f"{where}frame-from-{key.split('.')[-1]}@L{line}-is-handed-on-only-once", "ensures", False, node)
+            if times >= 1:
                 continue
             self.oblige(st, f"{where}frame-from-{key.split('.')[-1]}@L{line}-is-handed-on", "ensures", isn, node)
 
